@@ -3,9 +3,10 @@ Used by C01, C02, C03, C09.
 
 AST (python tuples)
   expr: ('lit', ity, int) | ('bool', b) | ('var', x) | ('bin', op, a, b) | ('un', op, a) | ('cast', a, ity) | ('call', f, [args])
-        | ('slit', sid, [field exprs]) | ('field', e, k)            (struct types are the strings "S<sid>", table STRUCTS)
+        | ('slit', sid, [field exprs]) | ('field', e, k[, array?])  (struct types are the strings "S<sid>", table STRUCTS;
+                                                                       array? = written e[k] instead of e.F<k>)
   stmt: ('let', x, ty, e, const?) | ('assign', x, e) | ('cassign', x, op, e) | ('inc', x, +1|-1)
-        | ('assignf', x, k, e) | ('cassignf', x, k, op, e)
+        | ('assignf', x, k, e[, array?]) | ('cassignf', x, k, op, e[, array?])
         | ('if', c, blockA, blockB) | ('while', c, block) | ('for', x, ity, lo, hi, block[, inclusive?, step expr|None]) | ('match', e, ity, [(int, block)], default_block|None)
         | ('break',) | ('continue',) | ('return', e|None)
         | ('print', [es]) | ('expr', e) | ('block', block)
@@ -24,7 +25,12 @@ COQ_OP = {"+": "Add", "-": "Sub", "*": "Mul", "/": "Div", "%": "Mod", "==": "Eq"
 
 # fixed pool of struct shapes (integer fields only): mixed widths exercise padding / sub-word loads and stores in both back ends
 STRUCTS = [["i32", "u8"], ["i64", "i16", "u32"], ["u16"], ["i8", "i8", "u64"], ["u8", "i64", "u8", "i32", "i16"],
-           ["u32", "u32"], ["i16", "u8", "u8", "i64"], ["u64", "i8"]]
+           ["u32", "u32"], ["i16", "u8", "u8", "i64"], ["u64", "i8"],
+           # from here on: fixed arrays [N]T. In the reference a fixed array indexed by constants is the same object as a struct
+           # with N fields of type T (a by-value aggregate with positional components); only the concrete syntax differs.
+           ["i32"] * 4, ["u8"] * 2, ["i64"], ["i16"] * 3, ["u64"] * 5]
+NSTRUCT = 8
+def is_array(t): return is_struct(t) and sid_of(t) >= NSTRUCT
 def is_struct(t): return isinstance(t, str) and t[0] == "S"
 def sid_of(t): return int(t[1:])
 def fields_of(t): return STRUCTS[sid_of(t)]
@@ -42,6 +48,7 @@ def wrap(t, x):
 # ------------------------------------------------------------------ rendering to Ferret
 
 def r_ty(t):
+    if is_array(t): return "[%d]%s" % (len(fields_of(t)), fields_of(t)[0])
     return t
 
 def r_expr(e):
@@ -58,8 +65,12 @@ def r_expr(e):
         if e[1] in METHODS and e[2]:
             return "%s.m%d(%s)" % (r_expr(e[2][0]), e[1], ", ".join(r_expr(a) for a in e[2][1:]))
         return "%s%d(%s)" % ("m" if e[1] in METHODS else "f", e[1], ", ".join(r_expr(a) for a in e[2]))
-    if k == "slit": return "({ %s } as S%d)" % (", ".join(".F%d = %s" % (i, r_expr(a)) for i, a in enumerate(e[2])), e[1])
-    if k == "field": return "%s.F%d" % (r_expr(e[1]), e[2])
+    if k == "slit":
+        if e[1] >= NSTRUCT: return "[%s]" % ", ".join(r_expr(a) for a in e[2])
+        return "({ %s } as S%d)" % (", ".join(".F%d = %s" % (i, r_expr(a)) for i, a in enumerate(e[2])), e[1])
+    if k == "field":
+        if e[3] if len(e) > 3 else False: return "%s[%d]" % (r_expr(e[1]), e[2])
+        return "%s.F%d" % (r_expr(e[1]), e[2])
     raise ValueError(e)
 
 def r_block(b, ind):
@@ -77,8 +88,12 @@ def r_stmt(s, ind):
     if k == "assign": return ["%sv%d = %s;" % (p, s[1], r_expr(s[2]))]
     if k == "cassign": return ["%sv%d %s= %s;" % (p, s[1], s[2], r_expr(s[3]))]
     if k == "inc": return ["%sv%d%s;" % (p, s[1], "++" if s[2] > 0 else "--")]
-    if k == "assignf": return ["%sv%d.F%d = %s;" % (p, s[1], s[2], r_expr(s[3]))]
-    if k == "cassignf": return ["%sv%d.F%d %s= %s;" % (p, s[1], s[2], s[3], r_expr(s[4]))]
+    if k == "assignf":
+        lhs = "v%d[%d]" % (s[1], s[2]) if (len(s) > 4 and s[4]) else "v%d.F%d" % (s[1], s[2])
+        return ["%s%s = %s;" % (p, lhs, r_expr(s[3]))]
+    if k == "cassignf":
+        lhs = "v%d[%d]" % (s[1], s[2]) if (len(s) > 5 and s[5]) else "v%d.F%d" % (s[1], s[2])
+        return ["%s%s %s= %s;" % (p, lhs, s[3], r_expr(s[4]))]
     if k == "if":
         out = ["%sif %s {" % (p, r_expr(s[1]))] + r_block(s[2], ind + 1)
         if s[3]:
@@ -118,12 +133,16 @@ def r_fn(k, f, is_main):
     ret = "" if f["ret"] == "void" else " -> %s" % r_ty(f["ret"])
     return ["fn %s(%s)%s {" % (name, ps, ret)] + r_block(f["body"], 1) + ["}", ""]
 
+import threading
+_render_lock = threading.RLock()      # the renderers keep per-program state in module globals (METHODS, _match_tmp)
+
 def to_ferret(prog):
     global METHODS
-    METHODS = {k for k, f in enumerate(prog) if f.get("method")}
-    body = []
-    for k, f in enumerate(prog):
-        body += r_fn(k, f, k == len(prog) - 1)
+    with _render_lock:
+        METHODS = {k for k, f in enumerate(prog) if f.get("method")}
+        body = []
+        for k, f in enumerate(prog):
+            body += r_fn(k, f, k == len(prog) - 1)
     out = ['import "std/io";', ""]
     used = sorted({int(m) for l in body for m in re.findall(r"\bS(\d+)\b", l)})
     for k in used:
@@ -197,8 +216,9 @@ def c_fn(f):
 
 def to_coq(prog):
     global _match_tmp
-    _match_tmp = 0
-    return "[" + ";\n   ".join(c_fn(f) for f in prog) + "]"
+    with _render_lock:
+        _match_tmp = 0
+        return "[" + ";\n   ".join(c_fn(f) for f in prog) + "]"
 
 def c_lines(lines):
     """observed output lines (list of list of python int/bool) -> Coq `list line`"""
@@ -301,13 +321,13 @@ class Gen:
         if c == "var": return ("var", r.choice(vs))
         if c == "field":
             self.feat("field-read")
-            x, k = r.choice(flds)
-            return ("field", ("var", x), k)
+            x, k, arr = r.choice(flds)
+            return ("field", ("var", x), k, arr)
         if c == "callfield":
             self.feat("call-field-read")
             k = r.choice([k for k, f in enumerate(self.fns) if is_struct(f[1]) and t in fields_of(f[1]) and not f[2]])
             st = self.fns[k][1]
-            return ("field", ("call", k, self.call_args(k, env, d)), r.choice([i for i, ft in enumerate(fields_of(st)) if ft == t]))
+            return ("field", ("call", k, self.call_args(k, env, d)), r.choice([i for i, ft in enumerate(fields_of(st)) if ft == t]), is_array(st))
         if c == "lit": return self.lit(t)
         if c == "neg":
             self.feat("neg")
@@ -371,7 +391,7 @@ class Gen:
         return ("bin", op, self.int_expr(t, env, max(d - 1, 0), nonlit=True), self.int_expr(t, env, max(d - 1, 0)))
 
     def fields_in_scope(self, env, t):
-        return [(x, k) for sc in env for x, (ty, _) in sc.items() if is_struct(ty) for k, ft in enumerate(fields_of(ty)) if ft == t]
+        return [(x, k, is_array(ty)) for sc in env for x, (ty, _) in sc.items() if is_struct(ty) for k, ft in enumerate(fields_of(ty)) if ft == t]
 
     def struct_expr(self, t, env, d):
         r = self.rng
@@ -451,7 +471,7 @@ class Gen:
             for _ in range(r.randint(1, 3)):
                 if vs and r.random() < 0.6:
                     x, ty = r.choice(vs)
-                    es.append(("field", ("var", x), r.randrange(len(fields_of(ty)))) if is_struct(ty) else ("var", x))
+                    es.append(("field", ("var", x), r.randrange(len(fields_of(ty))), is_array(ty)) if is_struct(ty) else ("var", x))
                 else:
                     es.append(self.expr(self.any_ty(), env, r.randint(1, 3), nonlit=True))
             return ("print", es)
@@ -464,12 +484,12 @@ class Gen:
             ft = fields_of(ty)[k]
             if r.random() < 0.6:
                 self.feat("field-assign")
-                return ("assignf", x, k, self.int_expr(ft, env, r.randint(0, 3)))
+                return ("assignf", x, k, self.int_expr(ft, env, r.randint(0, 3)), is_array(ty))
             self.feat("field-compound-assign")
             op = r.choice(["+", "-", "*", "/", "%"])
             if op in "/%":
-                return ("cassignf", x, k, op, ("lit", ft, r.choice([1, 2, 3, 7])))
-            return ("cassignf", x, k, op, self.int_expr(ft, env, r.randint(0, 2)))
+                return ("cassignf", x, k, op, ("lit", ft, r.choice([1, 2, 3, 7])), is_array(ty))
+            return ("cassignf", x, k, op, self.int_expr(ft, env, r.randint(0, 2)), is_array(ty))
         if c == "cassign":
             ints = [(x, t) for x, t in assignable if t != "bool" and not is_struct(t)]
             if not ints: return ("print", [self.expr("bool", env, 1, nonlit=True)])
@@ -588,7 +608,7 @@ class Gen:
         method = False
         if self.structs and not rec and r.random() < 0.35:
             method = True
-            params.append((self.fresh(), "S%d" % r.randrange(len(STRUCTS))))
+            params.append((self.fresh(), "S%d" % r.randrange(NSTRUCT)))      # a receiver is a named type
             self.feat("method")
         for _ in range(r.randint(0, 3)):
             params.append((self.fresh(), self.any_ty(with_struct=True)))
